@@ -73,6 +73,32 @@ macro_rules! ni_dec {
         }
     };
 }
+// same harness, Kissat (AES-256 decrypt: 2188 s with Kissat while other solvers shared the machine; CaDiCaL did not finish in 3600 s)
+macro_rules! ni_dec_kissat {
+    ($name:ident, $n:expr) => {
+        #[kani::proof]
+        #[kani::stub(core::arch::x86_64::_mm_aesdec_si128, x86_models::aesdec)]
+        #[kani::stub(core::arch::x86_64::_mm_aesdeclast_si128, x86_models::aesdeclast)]
+        #[kani::unwind(17)]
+        #[kani::solver(kissat)]
+        fn $name() {
+            // dk in FIPS-197 5.3.5 indexing (dk[r] used in round r); the NI backend stores them reversed
+            let dk: [[u8; 16]; $n] = kani::any();
+            let mut rev = [[0u8; 16]; $n];
+            let mut i = 0;
+            while i < $n {
+                rev[i] = dk[$n - 1 - i];
+                i += 1;
+            }
+            let keys = keys_from(&rev);
+            let blk: [u8; 16] = kani::any();
+            let inb: Block = Array(blk);
+            let mut outb = Block::default();
+            unsafe { encdec::decrypt::<$n>(&keys, InOut::from((&inb, &mut outb))); }
+            assert!(eq16(&outb.0, &fips::eq_inv_cipher::<$n>(&dk, &blk)));
+        }
+    };
+}
 // @ob name=c_ni_encrypt_11 props=C02,C20 fn=aes::ni::encdec::encrypt tier=thorough timeout=3600
 ni_enc!(c_ni_encrypt_11, 11);
 // @ob name=c_ni_encrypt_13 props=C02,C20 fn=aes::ni::encdec::encrypt tier=thorough timeout=3600
@@ -83,8 +109,8 @@ ni_enc!(c_ni_encrypt_15, 15);
 ni_dec!(c_ni_decrypt_11, 11);
 // @ob name=c_ni_decrypt_13 props=C02,C20 fn=aes::ni::encdec::decrypt tier=thorough timeout=3600
 ni_dec!(c_ni_decrypt_13, 13);
-// @ob name=c_ni_decrypt_15 props=C02,C20 fn=aes::ni::encdec::decrypt tier=thorough timeout=3600
-ni_dec!(c_ni_decrypt_15, 15);
+// @ob name=c_ni_decrypt_15 props=C02,C20 fn=aes::ni::encdec::decrypt tier=thorough solver=kissat timeout=7200
+ni_dec_kissat!(c_ni_decrypt_15, 15);
 
 // ---- inv_keys == equivalent-inverse-cipher key schedule (reversed), for every round-key set
 macro_rules! ni_inv_keys {
